@@ -80,7 +80,7 @@ def main():
         print(('CAUGHT ' if rc == 1 else 'MISSED ') + cid, tier, kinds, res[-1][:120] if res else out[-300:])
     rc, out = run('git status --porcelain', cwd='/repo')
     assert out.strip() == '', '/repo not clean after checks: ' + out
-    d = os.path.join('/verif/seeded', f'{prop}-{sub}')
+    d = os.path.join('/verif/seeded', f'{prop}-{os.environ.get("SEED_PREFIX","")}{sub}')
     os.makedirs(d, exist_ok=True)
     shutil.copy(patch, os.path.join(d, 'patch.diff'))
     shutil.copy(demo, os.path.join(d, os.path.basename(demo)))
